@@ -335,6 +335,145 @@ theorem kvGet_none [DecidableEq κ] {k : κ} {s : KV κ β} (h : kvGet k s = non
 
 end kv
 
+
+/-! ### further store lemmas -/
+
+section kv2
+variable {κ β : Type} {lt : κ → κ → Bool}
+
+theorem foldl_proj {σ τ α : Type} (f : σ → α → σ) (π : σ → τ) (g : τ → α → τ)
+    (h : ∀ s a, π (f s a) = g (π s) a) (l : List α) (s : σ) : π (l.foldl f s) = l.foldl g (π s) := by
+  induction l generalizing s with
+  | nil => rfl
+  | cons a l ih => rw [List.foldl_cons, List.foldl_cons, ih, h]
+
+theorem kvGet_eq_some_iff [DecidableEq κ] (so : StrictOrder lt) {s : KV κ β} (hs : Sorted lt s) (k : κ) (v : β) :
+    kvGet k s = some v ↔ (k, v) ∈ s := by
+  constructor
+  · exact kvGet_some
+  · intro hm
+    cases hg : kvGet k s with
+    | none => exact absurd rfl (kvGet_none hg _ hm)
+    | some v' =>
+      have := hs.eq_of_key so (kvGet_some hg) hm rfl
+      rw [(Prod.mk.inj this).2]
+
+theorem kvGet_kvSet_self [DecidableEq κ] (so : StrictOrder lt) {s : KV κ β} (hs : Sorted lt s) (k : κ) (v : β) :
+    kvGet k (kvSet lt k v s) = some v :=
+  (kvGet_eq_some_iff so (sorted_kvSet so k v hs) k v).2 ((mem_kvSet so k v hs _).2 (Or.inl rfl))
+
+theorem kvGet_kvSet_ne [DecidableEq κ] (so : StrictOrder lt) {s : KV κ β} (hs : Sorted lt s) {k k' : κ} (v : β)
+    (hne : k' ≠ k) : kvGet k' (kvSet lt k v s) = kvGet k' s := by
+  have hs' := sorted_kvSet so k v hs
+  cases hg : kvGet k' s with
+  | none =>
+    cases hg' : kvGet k' (kvSet lt k v s) with
+    | none => rfl
+    | some w =>
+      rcases (mem_kvSet so k v hs _).1 (kvGet_some hg') with h | ⟨h, _⟩
+      · exact absurd (Prod.mk.inj h).1 hne
+      · exact absurd rfl (kvGet_none hg _ h)
+  | some w =>
+    exact (kvGet_eq_some_iff so hs' k' w).2 ((mem_kvSet so k v hs _).2 (Or.inr ⟨kvGet_some hg, hne⟩))
+
+theorem kvHas_iff [DecidableEq κ] (k : κ) (s : KV κ β) : kvHas k s = true ↔ ∃ e ∈ s, e.1 = k := by
+  simp [kvHas]
+
+theorem kvHas_false [DecidableEq κ] {k : κ} {s : KV κ β} (h : kvHas k s = false) : ∀ e ∈ s, e.1 ≠ k := by
+  intro e he hk
+  have := (kvHas_iff k s).2 ⟨e, he, hk⟩
+  rw [h] at this; cases this
+
+/-- a loop of `Set`s keeps a section sorted whatever the keys -/
+theorem sorted_foldl_kvSet (so : StrictOrder lt) {γ : Type} (kf : γ → κ) (vf : γ → β) (items : List γ)
+    {acc : KV κ β} (h : Sorted lt acc) : Sorted lt (items.foldl (fun s x => kvSet lt (kf x) (vf x) s) acc) := by
+  induction items generalizing acc with
+  | nil => exact h
+  | cons x xs ih => exact ih (sorted_kvSet so _ _ h)
+
+theorem nodup_map_on {α γ : Type} {f : α → γ} {l : List α} (hn : l.Nodup)
+    (hi : ∀ x ∈ l, ∀ y ∈ l, f x = f y → x = y) : (l.map f).Nodup := by
+  induction l with
+  | nil => exact List.nodup_nil
+  | cons a l ih =>
+    rw [List.nodup_cons] at hn
+    rw [List.map_cons, List.nodup_cons]
+    refine ⟨?_, ih hn.2 (fun x hx y hy => hi x (List.mem_cons_of_mem _ hx) y (List.mem_cons_of_mem _ hy))⟩
+    intro hm
+    obtain ⟨y, hy, hfy⟩ := List.mem_map.1 hm
+    have := hi y (List.mem_cons_of_mem _ hy) a List.mem_cons_self hfy
+    subst this; exact hn.1 hy
+
+/-- the exported values of a keyed sorted section are pairwise distinct -/
+theorem exportVals_nodup (so : StrictOrder lt) {s : KV κ β} {key : β → κ} (hs : Sorted lt s) (hk : Keyed key s) :
+    (exportVals s).Nodup := by
+  unfold exportVals
+  have hn : s.Nodup := List.Pairwise.imp (fun hab e => so.ne_of_lt hab (congrArg Prod.fst e)) hs
+  apply nodup_map_on hn
+  intro x hx y hy h
+  apply hs.eq_of_key so hx hy
+  rw [hk x hx, hk y hy, h]
+
+theorem mem_exportVals {s : KV κ β} {key : β → κ} (hk : Keyed key s) (v : β) :
+    v ∈ exportVals s ↔ (key v, v) ∈ s := by
+  unfold exportVals
+  constructor
+  · intro h
+    obtain ⟨e, he, rfl⟩ := List.mem_map.1 h
+    rw [← hk e he]; exact he
+  · intro h; exact List.mem_map.2 ⟨_, h, rfl⟩
+
+end kv2
+
+/-! ### sets of composite keys (`Unit`-valued sections) -/
+
+section sets
+variable {κ : Type} {lt : κ → κ → Bool}
+
+theorem mem_setInsU (so : StrictOrder lt) (k : κ) {s : KV κ Unit} (hs : Sorted lt s) (e : κ × Unit) :
+    e ∈ kvSet lt k () s ↔ e.1 = k ∨ e ∈ s := by
+  rw [mem_kvSet so k () hs]
+  constructor
+  · rintro (rfl | ⟨h, _⟩)
+    · exact Or.inl rfl
+    · exact Or.inr h
+  · rintro (h | h)
+    · left; cases e; simp at h; simp [h]
+    · by_cases hk : e.1 = k
+      · left; cases e; simp at hk; simp [hk]
+      · exact Or.inr ⟨h, hk⟩
+
+/-- a loop of set insertions: sorted, and exactly the old members plus the inserted keys -/
+theorem foldl_setIns_spec (so : StrictOrder lt) {γ : Type} (kf : γ → κ) :
+    ∀ (items : List γ) (acc : KV κ Unit), Sorted lt acc →
+      Sorted lt (items.foldl (fun s x => kvSet lt (kf x) () s) acc) ∧
+      ∀ e, e ∈ items.foldl (fun s x => kvSet lt (kf x) () s) acc ↔ e ∈ acc ∨ ∃ x ∈ items, e.1 = kf x
+  | [], acc, ha => ⟨ha, fun e => by simp⟩
+  | x :: rest, acc, ha => by
+    have ih := foldl_setIns_spec so kf rest (kvSet lt (kf x) () acc) (sorted_kvSet so _ _ ha)
+    refine ⟨ih.1, fun e => ?_⟩
+    rw [List.foldl_cons, ih.2 e, mem_setInsU so _ ha]
+    constructor
+    · rintro ((h | h) | ⟨y, hy, h⟩)
+      · exact Or.inr ⟨x, List.mem_cons_self, h⟩
+      · exact Or.inl h
+      · exact Or.inr ⟨y, List.mem_cons_of_mem _ hy, h⟩
+    · rintro (h | ⟨y, hy, h⟩)
+      · exact Or.inl (Or.inr h)
+      · rcases List.mem_cons.1 hy with rfl | hy'
+        · exact Or.inl (Or.inl h)
+        · exact Or.inr ⟨y, hy', h⟩
+
+/-- **a set rebuilt by a loop of insertions** equals any sorted set with exactly those members -/
+theorem setRebuild_eq (so : StrictOrder lt) {γ : Type} {kf : γ → κ} {items : List γ} {t : KV κ Unit}
+    (ht : Sorted lt t) (hm : ∀ e, e ∈ t ↔ ∃ x ∈ items, e.1 = kf x) :
+    items.foldl (fun s x => kvSet lt (kf x) () s) [] = t := by
+  have sp := foldl_setIns_spec so kf items [] sorted_nil
+  apply sorted_ext so sp.1 ht
+  intro e; rw [sp.2 e, hm e]; simp
+
+end sets
+
 /-! ### id counters -/
 
 theorem foldl_max_ge_init (ids : List Nat) (a : Nat) : a ≤ ids.foldl Nat.max a := by
@@ -371,6 +510,29 @@ theorem maxId_cons (x : Nat) (l : List Nat) : maxId (x :: l) = Nat.max x (maxId 
   rw [maxId_perm this, maxId_append_singleton]
   show max (maxId l) x = max x (maxId l)
   omega
+
+theorem foldl_max_mem (ids : List Nat) (a : Nat) : ids.foldl Nat.max a = a ∨ ids.foldl Nat.max a ∈ ids := by
+  induction ids generalizing a with
+  | nil => exact Or.inl rfl
+  | cons x xs ih =>
+    rw [List.foldl_cons]
+    rcases ih (Nat.max a x) with h | h
+    · rw [h]
+      show max a x = a ∨ max a x ∈ x :: xs
+      by_cases hax : a ≤ x
+      · right; rw [Nat.max_eq_right hax]; exact List.mem_cons_self
+      · left; exact Nat.max_eq_left (by omega)
+    · exact Or.inr (List.mem_cons_of_mem _ h)
+
+/-- characterisation: an upper bound that is attained (or 0) is the maximum -/
+theorem maxId_eq_of {ids : List Nat} {m : Nat} (hub : ∀ id ∈ ids, id ≤ m) (hat : m = 0 ∨ m ∈ ids) : maxId ids = m := by
+  apply Nat.le_antisymm
+  · rcases foldl_max_mem ids 0 with h | h
+    · unfold maxId; rw [h]; exact Nat.zero_le _
+    · exact hub _ h
+  · rcases hat with rfl | h
+    · exact Nat.zero_le _
+    · exact maxId_ge ids m h
 
 /-- `fmt.Sprintf("%d", n)` parses back: decimal keys are injective -/
 theorem decVal_aux (fuel n : Nat) (acc : Bytes) (h : n < fuel) :
